@@ -258,6 +258,30 @@ def midclash_family(rng=None):
     return out
 
 
+def noteclash_family(rng=None):
+    """A notification (confirmable or not) carries exactly the message ID the connection will use for its own next message; the
+    observation's callback then issues a nested confirmable request, which the peer answers piggybacked — an ACK under our ID.  The
+    connection must keep its own message IDs away from the peer's confirmable messages (or otherwise cope): the nested request gets
+    its answer."""
+    out = []
+    for q in ((16, 0) if rng is None else (rng.choice([0, 1, 16]),)):
+        for d in (1, 2, 3):
+            out.append("scn udp %d 0 0 watch:1:g7 resp:1 notem:1:con:+%d resp:7 note:1 sleep:31000 settle" % (q, d))
+            if d > 1:
+                out.append("scn udp %d 0 0 watch:1:g7 resp:1 notem:1:non:+%d resp:7 note:1 sleep:31000 settle" % (q, d))
+        out.append("scn udp %d 0 0 watch:1:g7+g8 resp:1 notem:1:con:+1 resp:7 resp:8 sleep:31000 settle" % q)
+        out.append("scn udp %d 0 0 watch:1:g7 resp:1 note:1 resp:7 notem:1:con:+1 call:g8 resp:8 sleep:31000 settle" % q)
+    return out
+
+
+# NOT part of the generated set (reported to the coordinator, 2026-09-26): the same with a NON-confirmable notification whose message ID
+# equals the connection's next own ID stalls the *unchanged* tree.  `handleReq` takes the per-message-ID lock for every received
+# message and keys it by the number alone, although the peer's IDs and ours are different spaces; `checkMyMessageID` moves our counter
+# away from the peer's confirmable messages only.  The callback runs under lock X (the notification's ID), its nested request is sent
+# with our ID X, and the piggybacked answer (ACK X) waits for lock X: the nested request ends by its deadline.
+MIDLOCK_NON = ["scn udp 16 0 0 watch:1:g7 resp:1 notem:1:non:+1 resp:7 note:1 sleep:31000 settle"]
+
+
 def sametoken_family(rng=None):
     """Two messages under the token of a pending request, back to back (stream transport: in one write): the first is the response,
     the second belongs to nobody any more and reaches the connection's handler — exactly once, never dropped."""
@@ -377,7 +401,7 @@ def corpus_lines():
 def gen_lines(ctx):
     rng = random.Random(ctx.seed * 7727 + 11)
     L = [(l, True) for l in corpus_lines() + FIXED + stale_family() + requeue_family() + callback_family() + framesize_family()
-         + empty_family() + midclash_family() + sametoken_family() + dedup_family() + monitor_family() + DUPLOCK + DISCOVERY]
+         + empty_family() + midclash_family() + sametoken_family() + dedup_family() + monitor_family() + noteclash_family() + DUPLOCK + DISCOVERY]
     if ctx.tier == "thorough":
         L += [(l, True) for l in DUPLOCK_THOROUGH]
     for _ in range(20 if ctx.tier == "thorough" else 2):
